@@ -389,6 +389,26 @@ func c16richLayout(r *rand.Rand, f *sfnt.Font) {
 	if len(f.Gsub.FeatureList) > 0 {
 		f.Gsub.FeatureList[0].Lookups = append(f.Gsub.FeatureList[0].Lookups, gtab.LookupIndex(len(f.Gsub.LookupList)-1))
 	}
+	// an alternate substitution whose sets are not in glyph order (the order
+	// is the designer's: the first alternate is the default)
+	alt := func() []glyph.ID {
+		return []glyph.ID{glyph.ID(n - 1 - r.IntN(n/2)), glyph.ID(1 + r.IntN(n/2)), glyph.ID(n / 2)}
+	}
+	a1, a2 := glyph.ID(1+r.IntN(n-1)), glyph.ID(1+r.IntN(n-1))
+	cov := map[glyph.ID]int{a1: 0}
+	alts := [][]glyph.ID{alt()}
+	if a2 != a1 {
+		if a2 < a1 {
+			cov[a2], cov[a1] = 0, 1
+		} else {
+			cov[a2] = 1
+		}
+		alts = append(alts, alt())
+	}
+	f.Gsub.LookupList = append(f.Gsub.LookupList, &gtab.LookupTable{Meta: &gtab.LookupMetaInfo{LookupType: 3}, Subtables: []gtab.Subtable{&gtab.Gsub3_1{Cov: cov, Alternates: alts}}})
+	if len(f.Gsub.FeatureList) > 0 {
+		f.Gsub.FeatureList[0].Lookups = append(f.Gsub.FeatureList[0].Lookups, gtab.LookupIndex(len(f.Gsub.LookupList)-1))
+	}
 	// explicit entries for class 0 (legal in a constructed table, never
 	// produced by the reader): an encoder must not "tidy" the shared maps
 	if f.Gdef == nil {
